@@ -92,14 +92,25 @@ type c09Agg struct {
 	checked, overlap, withBG, nontrivial int
 }
 
-func runC09(c *core.Ctx) {
-	c.Res.Rule = "concurrent histories recorded on the REAL stores in child processes (3-4 goroutines x 3-6 ops on 1-2 shared mailboxes, start barrier, " +
+func runC09(c *core.Ctx) { c09Legs(c, nil) }
+
+// c09Legs: all legs (only == nil: the C09 check), or the named ones as a leg of another property's check.
+func c09Legs(c *core.Ctx, only map[string]bool) {
+	if only == nil {
+		c.Res.Rule = c09Rule
+	}
+	c09Run(c, only)
+}
+
+const c09Rule = "concurrent histories recorded on the REAL stores in child processes (3-4 goroutines x 3-6 ops on 1-2 shared mailboxes, start barrier, " +
 		"inv/resp from one atomic counter, final listing of every mailbox at quiescence; legs mem-plain, mem-cap(2), mem-limit(1 KiB), mem-cap-limit, " +
 		"file-plain, file-cap(2) with lock-bucket-colliding names), each checked for linearizability against Spec.Store by the Lean Wing-Gong checker (driver mode lin; " +
 		"size-enforcer evictions enter as optional b/ ops derived from deleted events); implementation-only oracles per history (no panic, no error, ids distinct, " +
 		"delivered-stays via deleted events, cap / size bound at quiescence, listing order); visit legs (VisitMailboxes + retention scan never err while directories " +
 		"come and go, an untouched mailbox is reported exactly once); stress legs (mem cap 3 maxkb 4, file cap 3); child crash / deadlock / race report are observed outcomes; " +
 		"non-trivial = operations of different goroutines overlap in time AND something was removed / evicted / purged or answered notExist; distinct by full history line"
+
+func c09Run(c *core.Ctx, only map[string]bool) {
 	race := c09RaceBuild()
 	c.Note("race detector in this binary: %v", race)
 	if !race {
@@ -142,6 +153,15 @@ func runC09(c *core.Ctx) {
 				batches = append(batches, c09Spec{Kind: "lin", Leg: l.name, Store: l.store, Cap: l.cap, MaxKB: l.maxkb, Shard: sh, From: 0, To: per[l.store]})
 			}
 		}
+	}
+	if only != nil {
+		kept := batches[:0]
+		for _, b := range batches {
+			if only[b.Leg] {
+				kept = append(kept, b)
+			}
+		}
+		batches = kept
 	}
 	for i := range batches {
 		b := &batches[i]
